@@ -196,8 +196,10 @@ fn c02_judge(case: &Case, run: &Run, an: &Analysis, stats: &mut Stats) -> CheckR
   // I4: probes execute nothing.
   for b in &an.builds {
     if let BuildKind::Probe(t) = b.kind {
-      // Only for probes that return: a root whose build aborts (task failure) aborts again and re-runs the failing task.
-      if b.panic.is_none() && !b.executed.is_empty() {
+      // Only when every build of the probed session returned: a root whose build aborted never completed, so requiring
+      // it again legitimately executes it (and tasks below it) again.
+      let original_aborted = b.session > 0 && run.sessions[b.session - 1].builds.iter().any(|x| matches!(x.result, engine::BuildResult::Panic(_)));
+      if b.panic.is_none() && !original_aborted && !b.executed.is_empty() {
         return Err(Failure::new(format!("[I4-idempotence] session {}: requiring T{} again with nothing changed executed {:?}", b.session, t, b.executed)));
       }
     }
@@ -599,6 +601,7 @@ pub const C16: Spec = Spec {
 fn c19_cfg(t: Tier) -> GenCfg {
   let mut c = GenCfg::for_tier(t);
   c.panic_steps = true;
+  c.task_panic_share = 3;
   c
 }
 
@@ -634,8 +637,30 @@ fn c19_judge(case: &Case, run: &Run, an: &Analysis, stats: &mut Stats) -> CheckR
           crate::analyze::PanicKind::Internal => {
             return Err(Failure::new(format!("[c19-internal] session {} build {} ({:?}) after {} earlier abort(s) failed with an internal error: {}", si, bi, b.kind, aborts, msg)));
           }
-          _ => {
-            return Err(Failure::new(format!("[c19-spurious-abort] session {} build {} ({:?}) aborted with a diagnosed violation that does not exist in the current state: {}", si, bi, b.kind, msg)));
+          crate::analyze::PanicKind::TaskPanic => {
+            // The program itself fails in this state; the from-scratch evaluator must agree.
+            let mut ev = crate::model::Eval::new(&case.prog, sess.state_before.clone());
+            let mut model_panics = false;
+            for x in sess.builds.iter().take(bi + 1) {
+              if let engine::BuildKind::TopDown(t) | engine::BuildKind::Then(t) | engine::BuildKind::Probe(t) = &x.kind { if ev.require_root(*t).is_err() { model_panics = true; break; } }
+            }
+            if !model_panics { return Err(Failure::new(format!("[c19-task-panic-not-in-model] session {} build {}: a task failed ({}) although a from-scratch build of the current state does not fail", si, bi, msg))); }
+          }
+          kind => {
+            let what = format!("[c19-spurious-abort] session {} build {} ({:?}) aborted with a diagnosed violation that does not exist in the current state: {}", si, bi, b.kind, msg);
+            // Known finding C19-F1: after an aborted execution a task has lost the requires it had recorded before; a
+            // reader that reached a generator only through that task then makes the generator's next write look like a
+            // hidden dependency.
+            if seen_abort && kind == crate::analyze::PanicKind::HiddenWrite {
+              let mut sh = crate::model::Shadow::default();
+              for l in &run.log[..b.log.end] { sh.feed(l); }
+              let reader = msg.split("from reading task 'T").nth(1).and_then(|x| x.split('\'').next()).and_then(|x| x.parse::<u8>().ok());
+              if let Some(s) = reader {
+                let cut = sh.last.iter().any(|(x, e)| !e.complete && (*x == s || sh.reaches(s, *x)));
+                if cut { stats.class("c19_f1_hidden_dependency_after_abort_cut_a_path"); return Err(Failure::with_sig(what, "C19-F1/hidden-write-after-aborted-intermediate")); }
+              }
+            }
+            return Err(Failure::new(what));
           }
         }
         seen_abort = true;
@@ -743,7 +768,9 @@ fn c08_judge(case: &Case, run: &Run, an: &Analysis, stats: &mut Stats) -> CheckR
     let Some(last) = sess.builds.last() else { continue; };
     for l in &run.log[pos..last.log.end] { sh.feed(l); }
     pos = last.log.end;
-    if sess.builds.iter().any(|b| matches!(b.result, engine::BuildResult::Panic(_))) { return Ok(()); }
+    // After an aborted build the aborted tasks keep the dependencies they had created so far (they are incomplete in
+    // the shadow record and skipped below); every completed task is still compared.
+    if sess.builds.iter().any(|b| matches!(b.result, engine::BuildResult::Panic(_))) { stats.class("dump_compared_after_an_abort"); }
     for (t, e) in sh.last.iter() {
       if !e.complete { continue; }
       let key = format!("T{}", t);
@@ -794,8 +821,11 @@ fn c08_judge(case: &Case, run: &Run, an: &Analysis, stats: &mut Stats) -> CheckR
         return Err(Failure::new(format!("[c08-dump] after session {}: r{} has incoming dependencies from {:?}, the tasks whose last execution used it are {:?}", si, r, got, want)));
       }
     }
-    if sess.dump_after.iter().any(|n| n.edges.iter().any(|e| e.kind == "reserved")) {
-      return Err(Failure::new(format!("[c08-dump] after session {}: a reserved require dependency is left in the store", si)));
+    for n in sess.dump_after.iter().filter(|n| n.is_task) {
+      let complete = n.key.strip_prefix('T').and_then(|x| x.parse::<u8>().ok()).and_then(|t| sh.last.get(&t)).map(|e| e.complete).unwrap_or(false);
+      if complete && n.edges.iter().any(|e| e.kind == "reserved") {
+        return Err(Failure::new(format!("[c08-dump] after session {}: a reserved require dependency is left in the store for the completed task {}", si, n.key)));
+      }
     }
   }
   let multi_case = any_multi || sh.last.values().any(|e| !e.multi_checker_targets().is_empty());
@@ -866,6 +896,10 @@ pub fn run(prop: &str, tier: Tier, seed: u64) -> i32 {
   let (stats, found) = driver::search(&scfg, &known, || spec_strategy(spec, cfg.clone()), |c, s| check(spec, c, s), |c| pretty_case(c));
   report.absorb("case", stats, found);
   if let Some(extra) = spec.extra { extra(spec, tier, seed, &known, &mut report); }
+  // Coverage-guided campaign (thorough tier) for the properties whose cases are plain program x history values.
+  if tier == Tier::Thorough && report.violations.is_empty() && ["C01", "C02", "C03", "C04", "C08", "C09", "C20"].contains(&prop) && std::env::var("PV_NO_FUZZ").is_err() {
+    crate::fuzz::campaign(prop, 60000, 16, &mut report);
+  }
   report.assumptions = spec.assumptions.iter().map(|s| s.to_string()).collect();
   report.finish()
 }
